@@ -29,7 +29,7 @@ Ev == Trace[l]
 IsEv(e) == l <= Len(Trace) /\ Ev.e = e
 
 Publish(d, da, o, u) ==
-  TLCSet(1, TLCGet(1) \cup {[t |-> tno, drift |-> d, driftAt |-> da, viol |-> o.viol, used |-> u]})
+  TLCSet(1, TLCGet(1) \cup {[t |-> tno, drift |-> d, driftAt |-> da, viol |-> o.viol, diag |-> o.diag, used |-> u]})
 
 SnapOf(x) ==
   [creds  |-> {[name |-> r.name, pw |-> r.pw] : r \in ToSet(x.creds)},
@@ -39,7 +39,8 @@ SnapOf(x) ==
    mboxes |-> {[acct |-> r.acct, name |-> r.name, spc |-> r.spc, uv |-> r.uv, next |-> r.next] : r \in ToSet(x.mboxes)},
    msgs   |-> {[acct |-> r.acct, mbox |-> r.mbox, uid |-> r.uid, body |-> r.body, flags |-> ToSet(r.flags)]
                : r \in ToSet(x.msgs)},
-   nuv    |-> x.nuv]
+   nuv    |-> x.nuv,
+   nblob  |-> x.nblob]
 (* the design's own snapshot of the empty installation *)
 
 CmdOf(c) == [k |-> c.k, sp |-> c.sp, pw |-> c.pw, cf |-> c.cf, su |-> c.su, mb |-> c.mb, mb2 |-> c.mb2, spc |-> c.spc,
@@ -54,7 +55,7 @@ TInit ==
 
 TReset ==
   /\ IsEv("Cfg")
-  /\ s' = Derive(EmptySnap) /\ step' = 0 /\ seen' = {} /\ used' = {} /\ obs' = [viol |-> {}] /\ phase' = "run"
+  /\ s' = Derive(EmptySnap) /\ step' = 0 /\ seen' = {} /\ used' = {} /\ obs' = [viol |-> {}, diag |-> {}] /\ phase' = "run"
   /\ hist' = <<>>
   /\ last' = SnapOf(Ev.snap) /\ uvs' = {}
   /\ l' = l + 1 /\ tno' = Ev.t
@@ -63,16 +64,18 @@ TReset ==
 
 (* the judgement of one logged command, from logged values only; every     *)
 (* violated predicate is tagged with the deviations the step needed (u)    *)
-Tag(S, u) == {[p |-> x, d |-> u] : x \in S}
+Tag(S, u) == {[p |-> x, d |-> u, q |-> Ev.seq] : x \in S}
 JudgeCmd(o, e, before, sn, u) ==
   LET c == CmdOf(e.c)
       a == SnapOf(e.snap) IN
-  [viol |-> o.viol \cup Tag(StepViol(c, e.res, e.ez, before, a) \cup StateViol(a)
+  [diag |-> o.diag \cup (IF UvCollision(uvs, c, before, a) THEN {"UvCollision"} ELSE {}),
+   viol |-> o.viol \cup Tag(StepViol(c, e.res, e.ez, before, a) \cup StateViol(a)
                              \cup (IF UidReused(sn, a) THEN {"UidReused"} ELSE {})
                              \cup (IF UvRecycled(uvs, c, before, a) THEN {"UvRecycled"} ELSE {})
                              \cup (IF e.panic THEN {"Panic"} ELSE {}), u)]
 JudgeList(o, e, before, u) ==
-  [viol |-> o.viol \cup Tag(ListViol(CmdOf(e.c), e.res, e.ez, ToSet(e.out), before)
+  [diag |-> o.diag,
+   viol |-> o.viol \cup Tag(ListViol(CmdOf(e.c), e.res, e.ez, ToSet(e.out), before)
                              \cup (IF e.panic THEN {"Panic"} ELSE {}), u)]
 
 C_Cmd ==
